@@ -14,6 +14,17 @@ CHECKS = {
          "Trusted: the 60-line reference TLV classifier and padding predicates in mc/props/c13.py; values outside the enumerated "
          "sets are not covered; tag octets treated as single bytes; step budget measured in Python call events.",
          "DESIGN.md 3/C13"),
+ "C10": ("model_checking",
+         "stateless explicit-state exploration of all call histories up to a depth bound on the real objects, in lock-step with reference automata",
+         "Every history over a 12-14 operation alphabet up to depth 5 (quick) / 6 (thorough) is executed on a fresh real object for each "
+         "AEAD variant (GCM, EAX, OCB, SIV with/without nonce, ChaCha20/XChaCha20-Poly1305, CCM in 16-24 declared/undeclared length "
+         "combinations), classic modes, and every hash/XOF/MAC class, plus longer histories with a bounded number of forbidden calls; "
+         "after every call the real observation is compared with the reference automaton transcribed from the documentation and with "
+         "the library's one-shot computation. This is the natural level for a property quantified over all call sequences: the tree is "
+         "complete within the bound, the unit tests exercise a few dozen paths.",
+         "Trusted: the reference automata in mc/props/c10.py (DESIGN.md Appendix A). Argument values are fixed representatives; "
+         "histories longer than the bound are covered only with <=2 forbidden calls up to depth 8.",
+         "DESIGN.md 3/C10 and Appendix A"),
 }
 NOT_YET = "check not built yet (work in progress in this session; see DESIGN.md section 3 for the planned bounded-exhaustive check)"
 man = {
